@@ -7,6 +7,7 @@ import (
 	"io"
 	"reflect"
 	"strings"
+	"time"
 
 	"github.com/bytedance/sonic"
 	"github.com/bytedance/sonic/ast"
@@ -375,6 +376,31 @@ func (c *C07Case) Run() (res stat.Result) {
 		panic("harness: cannot start worker: " + err.Error())
 	}
 	tr, err := w.ask("C07", c)
+	if _, ok := err.(errWorkerTimeout); ok {
+		// hang rule: the case is re-run alone in fresh workers with doubled deadlines; only a case that
+		// exceeds all three is reported as a (reproducible) hang, otherwise the run is inconclusive
+		hung := true
+		for _, factor := range []time.Duration{2, 4} {
+			w2, e2 := startWorker([]string{"VERIF_C07=retry"})
+			if e2 != nil {
+				panic("harness: cannot start worker: " + e2.Error())
+			}
+			w2.dl = askDeadline * factor
+			tr, err = w2.ask("C07", c)
+			w2.stop()
+			if _, still := err.(errWorkerTimeout); !still {
+				hung = false
+				break
+			}
+		}
+		if hung {
+			res.Err = fmt.Errorf("%s on %s input (n=%d): no answer within %v, %v and %v in three separate worker processes (reproducible hang)", c.entryName(), c.Kind, c.N, askDeadline, 2*askDeadline, 4*askDeadline)
+			return
+		}
+		if err == nil {
+			res.Inconclusive = "C07: a case exceeded its deadline once and completed when re-run alone (machine load)"
+		}
+	}
 	if err != nil {
 		if id := c07Classify(c, err.Error()); id != "" {
 			res.Known = append(res.Known, id)
